@@ -325,7 +325,7 @@ impl Check for C11 {
         // (ii') curved strokes: the stroke under T is the image under T of the user-space stroke (M-REGION of
         // the transformed user-space region), also when T scales strongly up or down
         let cps: Vec<(f32, f32)> = vec![(4., 5.), (17., 3.), (31., 8.), (6., 19.), (18., 17.), (30., 21.), (5., 31.), (19., 29.), (32., 30.)];
-        run.bound("curved-strokes-under-scale", "9^3 quads with user coordinates k times the device ones under scale 1/k, k in {50, 0.02, 7, 0.0025}, width 4k, butt/round".to_string());
+        run.bound("curved-strokes-under-scale", "9^3 quads with user coordinates k times the device ones under scale 1/k, k in {50, 0.02, 7, 0.0025, 2^-24, 2^-30}, width 4k, butt/round; 6 reflections / rotations".to_string());
         run.par(cps.len() * cps.len(), |s, l| {
             let (a, b) = (cps[s / cps.len()], cps[s % cps.len()]);
             if a == b {
@@ -354,7 +354,9 @@ impl Check for C11 {
                         }
                     }
                 }
-                for k in [50.0f32, 0.02, 7.0, 0.0025] {
+                // (2^-24, 2^-30: magnifications of 1.7e7 and 1e9 - the flattening tolerance asked for, 0.1 / scale
+                // user units, lies below what the flattening library accepts by itself)
+                for k in [50.0f32, 0.02, 7.0, 0.0025, 5.9604645e-8, 9.313226e-10] {
                     let xf: Xf = [1.0 / k, 0., 0., 1.0 / k, 0., 0.];
                     let path = PathSpec::new(vec![POp::M(a.0 * k, a.1 * k), POp::Q(b.0 * k, b.1 * k, c.0 * k, c.1 * k)]);
                     let st = StyleSpec { width: 4.0 * k, cap: (s % 2) as u8, join: 1, miter: 4., dash: vec![], offset: 0. };
